@@ -184,6 +184,23 @@ Proof. exact entry_roundtrip. Qed.
 Theorem broadcast_key_roundtrip : forall k, all_bytes k = true -> hex_dec (hex_enc k) = Some k.
 Proof. exact hex_roundtrip. Qed.
 
+(* the cache map (storage_data): after any history of async_create_or_update_map / async_delete_map
+   an id holds exactly what the LAST operation on it wrote (a None broadcast key / state number
+   included), or nothing after a delete; other ids are not disturbed *)
+Theorem cache_map_last_write_wins :
+  forall (E : Type) (ops : list (cop E)) (id : bytes) (m : cmap E),
+    map_get E id (map_run E ops m) = last_write E id ops (map_get E id m).
+Proof. exact cache_map_last_write. Qed.
+
+Example c20_cache_history :
+  let e1 := mkce (Some (JInt (Zpos 1%positive))) (Some []) (Some (JStr [97; 98]%N)) (Some (JInt (Zpos 7%positive))) in
+  let e2 := mkce (Some (JInt (Zpos 2%positive))) (Some []) None None in
+  map_get centry [49]%N (map_run centry [CUpdate [49]%N e1; CUpdate [50]%N e1; CUpdate [49]%N e2; CDelete [50]%N] [])
+  = Some e2 /\
+  map_get centry [50]%N (map_run centry [CUpdate [49]%N e1; CUpdate [50]%N e1; CUpdate [49]%N e2; CDelete [50]%N] [])
+  = None.
+Proof. exact cache_history_example. Qed.
+
 (* pairing records of the three transports (any further fields, any alias bytes) *)
 Theorem pairing_roundtrip :
   forall l : list (bytes * pdata),
@@ -228,3 +245,4 @@ Print Assumptions cache_entry_roundtrip.
 Print Assumptions broadcast_key_roundtrip.
 Print Assumptions pairing_roundtrip.
 Print Assumptions pairing_legacy_connection.
+Print Assumptions cache_map_last_write_wins.
